@@ -47,7 +47,7 @@ func runC04(c *engine.Ctx) {
 	sort.Strings(names)
 	for _, name := range names {
 		obj := sinks[name]
-		calls := engine.CallsTo(regCtl, obj)
+		calls := engine.CallsToVia(regCtl, obj) // directly or through a same-package helper
 		if len(calls) == 0 {
 			if name == "metrics.NewClient" {
 				continue
